@@ -135,6 +135,28 @@ def gen_cases(tier, rng):
     return cases
 
 
+
+def gen_reopen(tier, rng):
+    """the part of the log correspondence that the persistence theorems (logfile_reopen) lean on:
+    a writer re-opened in append mode at every offset around a block boundary, and random session
+    splits with multi-block records"""
+    B, H = consts()
+    cases = []
+    i = 0
+    for r in range(0, 24, 1 if tier == "thorough" else 2):
+        s = B - r
+        for l in [0, 1, r - H if r >= H else 0, r, B - H, B - H + 1]:
+            cases.append("ra%d 1 S:%s S:%s S:x0c" % (i, pat(rng, s - H), pat(rng, max(l, 0))))
+            i += 1
+    for j in range(60 if tier == "quick" else 1500):
+        ops = []
+        for _ in range(rng.randrange(2, 5)):
+            recs = [pat(rng, rec_len(rng, B, H) if rng.random() < 0.5 else rng.randrange(0, 30))
+                    for _ in range(rng.randrange(1, 4))]
+            ops.append("S:" + ",".join(recs))
+        cases.append("rb%d 1 %s" % (j, " ".join(ops)))
+    return cases
+
 def corpus_cases():
     d = os.path.join(lib.VERIF, "corpus", "C12")
     res = []
